@@ -936,7 +936,7 @@ def legs(tier):
                              ex2, 12 + ex2, 1 - _explored_mass_clifford2(ex2), 4 if quick else 6)))
     # states
     sitems = [['bit', N, 0, 0, 0] for N in (1, 2, 3)]
-    s2 = []
+    s2 = [['clifford', 1, -1, 0, 0]]          # cheap head item: the runner replays the first item twice in the parent
     for kind in ('pauli', 'clifford'):
         for N in (1, 2):
             for r in [-1] + list(range(N + 1)):
@@ -954,7 +954,7 @@ def legs(tier):
                          + ('2 (default r) or 1 of the 16 sign strings (capped in quick; every (table, sign) map is covered by uniform_maps)' if quick else 'all 16 sign strings')))
     # circuits
     citems = []
-    c2 = []
+    c2 = [['global_rcc', 1, 'forward', [], [], 0]]      # cheap head item (determinism probe)
     for dirn in ('forward', 'backward'):
         citems.append(['onsite_rcc', 1, dirn, [], [], 4])
         citems.append(['global_rcc', 1, dirn, [], [], 4])
@@ -981,7 +981,7 @@ def legs(tier):
     out.append(Leg('resample', fn_resample, ritems, chunk=1,
                    bound='map-less CliffordGate(0) applied twice, forward and backward: the whole two-stream coin tree of both calls (+4 coins of rejection): '
                          'all 24x24 ordered pairs of maps'))
-    r2 = []
+    r2 = [[1, 'forward', 'pairs', None, 0]]             # cheap head item (determinism probe)
     for dirn in ('forward', 'backward'):
         for k in (((3,) if dirn == 'forward' else (12,)) if quick else range(16)):
             r2.append([2, dirn, 'second', k, 2 if quick else 4])
@@ -1000,7 +1000,8 @@ def legs(tier):
     out.append(Leg('torch', fn_torch, titems, chunk=1,
                    bound='torchclifford samplers through the scripted torch.randint seam: N=1 all streams (+4 coins), N=2 random_pair/random_pauli (+4), '
                          'random_clifford(2) (+%d), random_pauli_map(2) (+%d)' % (2 if quick else 4, 0 if quick else 2)))
-    t2 = [['random_clifford_map', 2, 0 if quick else 2, list(bits(k, 4))] for k in ((1, 6, 7, 11, 12) if quick else range(1, 16))]
+    t2 = [['random_clifford_map', 1, 0, []]]            # cheap head item (determinism probe)
+    t2 += [['random_clifford_map', 2, 0 if quick else 2, list(bits(k, 4))] for k in ((1, 6, 7, 11, 12) if quick else range(1, 16))]
     out.append(Leg('torch_map_N2', fn_torch, t2, chunk=1, exhaustive=not quick, supplementary=quick,
                    bound='torchclifford random_clifford_map(2): validity and conditional sign fairness on every stream below '
                          + ('5 of the 15 possible first draws g1 (capped in quick)' if quick else 'each of the 15 first draws g1')
